@@ -131,10 +131,17 @@ RULE = ("lockstep product: world 0 runs the full history mixing apps X and Y (id
 
 
 def make_spec(tier, name=None):
-    return C06(tier)
+    sp = C06(tier)
+    if name == "c06-x":
+        sp.observed_app = "X"       # the mirror image: app X observed, app Y projected away
+    return sp
 
 
 def run(pid, tier, seed, args):
     from .base_run import run_specs
     spec = make_spec(tier)
-    return run_specs(pid, tier, seed, args, [("c06", spec, spec.depth, 100 if tier == "quick" else 1500)], rule=RULE)
+    specs = [("c06", spec, spec.depth, 100 if tier == "quick" else 1500)]
+    if tier != "quick":
+        sx = make_spec(tier, "c06-x")
+        specs.append(("c06-x", sx, sx.depth, 1500))
+    return run_specs(pid, tier, seed, args, specs, rule=RULE)
